@@ -103,7 +103,8 @@ def run(tier):
     import gen as _G
     gmeta, greqs = [], []
     for d in [x for x in _G.grammar_sentences(r, 60 if tier == "quick" else 500, prefer=_G.plausible(orc.drv))[::2] if "(" not in x and " " not in x and x[-1] not in "ab"]:
-        for txt in (d, f"Gal(b1-4){d}"):
+        free_ = [p_ for p_ in "346" if p_ not in d]        # a position the residue's own modifications do not use
+        for txt in ([d, f"Gal(b1-{free_[0]}){d}"] if free_ else [d]):
             greqs.append({"iupac": txt, "kw": {}}); gmeta.append((txt, "plain", None))
             for st in r.sample([1, 2, 3, 4, 5, 6, 7, 8, 9, 0, 42], 3):
                 greqs.append({"iupac": txt, "kw": {"start": st}}); gmeta.append((txt, "start", st))
